@@ -125,6 +125,14 @@ CHECKS = {
              "and that both compositors are per-channel fg*a + bg*(1-a) with matching indices, alpha 1 returning the colour itself. Covers every spelling and every background at once; the tests never build a ColorPair with translucent text on a non-white background. The 1.5-unit numeric bound is not decided.",
         ref="DESIGN 3/C13",
         note=TB + "; source-over definition from CSS Compositing"),
+    "C06": dict(
+        technique="static constant-table check by partial evaluation of the format dispatch, formula-shape audit of format detection, reaching-definition wiring of make_readable's re-formatting, interval analysis of the emitted hsl() fields under the function's own validation guards",
+        category="other",
+        text="Decides: detection classifies as documented and format_color maps every label detection can return to the documented counterpart; make_readable re-formats the optimiser's colour with the text's own detected format whether or not the fix succeeded; "
+             "every emitted field is inside the range the library's reader accepts (hex pairs, rgb ints, hsl S/L in [0,100]). Re-derived the genuine defect F-C06 (unclamped saturation -> 'hsl(.., 100.00000000000003%, ..)' rejected by the library's own parser, ~0.3% of colours), now fixed in /repo. "
+             "Read-back *equality* on 2^24 colours is numeric and not decided.",
+        ref="DESIGN 3/C06, 4/F-C06",
+        note=TB + "; acceptance ranges of the reader as established under C07/C14"),
 }
 
 NOT_APPLICABLE = {
@@ -161,7 +169,7 @@ def main():
             "enable": "no hooks: every check is a static analysis of /repo/src/cm_colors read with ast; nothing of the repository is built, imported or executed",
             "baseline_off_cmd": "cd /repo && /venv/bin/python -m pytest -q -p no:cacheprovider --timeout=900",
             "source_commits": [],
-            "fix_commits": ["133000f fix: hsla_to_rgb tuple branch raises ValueError (not TypeError) for non-numeric components", "f8908b4 fix: clamp the grey fallback lightness of rgb_to_oklch_safe to [0, 1]"],
+            "fix_commits": ["133000f fix: hsla_to_rgb tuple branch raises ValueError (not TypeError) for non-numeric components", "f8908b4 fix: clamp the grey fallback lightness of rgb_to_oklch_safe to [0, 1]", "a0f5ade fix: clamp HSL saturation to [0, 1] in rgb_to_hsl so the emitted hsl() string parses back"],
             "add_only": True,
         },
         "engines": [{
